@@ -1220,6 +1220,9 @@ class Exec:
             else:
                 kwargs[k.arg] = self.eval(k.value, fr)
         if isinstance(e.func, ast.Attribute):
+            v = e.func.value
+            if isinstance(v, ast.Call) and isinstance(v.func, ast.Name) and v.func.id == "super" and not v.args:
+                return self.call_super(fr, e.func.attr, args, kwargs, e)
             recv = self.eval(e.func.value, fr)
             return self.call_method(recv, e.func.attr, args, kwargs, e)
         fn = self.eval(e.func, fr)
@@ -1377,6 +1380,31 @@ class Exec:
         for name, g in named(c.ensures(self, a, res, old)).items():
             self.assume(g)
         return res
+
+    def call_super(self, fr, name, args, kwargs, node):
+        """super().name(...) inside a method: next definition after the defining class in the MRO"""
+        f = fr
+        while f is not None and (f.func is None or f.func.cls is None):
+            f = f.parent
+        if f is None:
+            raise Unsupported("super() outside a method")
+        cls = f.func.cls
+        selfname = f.func.node.args.args[0].arg
+        obj = f.locals[selfname]
+        repo_cls, ext = self.mro(obj.cls if isinstance(obj.cls, RepoClass) else cls)
+        seen = False
+        for c in repo_cls:
+            if seen and name in c.methods:
+                return self.call_closure(Closure(c.methods[name], None, obj), args, kwargs, node)
+            if c is cls or c.name == cls.name:
+                seen = True
+        for e_ in ext:
+            r = self.registry.extern_method(e_, name)
+            if r is not None:
+                return self.registry.call_extern(self, ExternFn(r, obj), args, kwargs, node)
+        if name == "__init__":
+            return None
+        raise Unsupported("super().%s not found" % name)
 
     def instantiate(self, cls, args, kwargs, node):
         obj = Obj(cls)
